@@ -9,6 +9,8 @@ kernels.index_kernel.IndexKernel.{_eval_covar_matrix, forward}, kernels.lcm_kern
   * MultitaskKernel: K[(i, a), (j, b)] = K_x[i, j] * K_t[a, b] in the interleaved layout (row i*T + a); diag = the diagonal of that.
   * IndexKernel: B B^T + diag(v) looked up at the task indices: K[i, j] = (B B^T + diag v)[i1[i], i2[j]].
   * LCMKernel: the sum of its component multitask kernels.
+  * Interpolation.interpolate, region contract (mechanical split re-done on every run, see interpolate_regions): the combination of the one-dimensional
+    node indices / weights across dimensions = lexicographic position in a grid with DIFFERENT sizes per dimension, product of the weights (d <= 3).
 The Toeplitz / Kronecker grid kernels, the inducing-point (Nystrom / SGPR) algebra and the kernel-specific prediction strategies are compared with
 their dense meaning in the bounded tier only.
 """
@@ -370,3 +372,194 @@ def replay_ipk_lifecycle(model, params, clause, info):
         bad = not (ok0 and torch.allclose(second, want, atol=1e-7))
     return {"violates": bool(bad), "detail": f"after {op} with a changed lengthscale: max |k - Nystrom(new hyperparameters)| = {(second - want).abs().max().item():.3e}",
             "entry": {"module": "contracts.C09_structured", "function": "replay_ipk_lifecycle", "args": [model, list(params), clause, info]}}
+
+
+# ------------------------------------------------------------------ d-dimensional interpolation: the combination across dimensions -----------
+def _names(node, ctxt):
+    """names read (ast.Load) / bound (ast.Store) by a statement; comprehension variables are local to the comprehension and are not counted"""
+    import ast
+    local = set()
+    for n in ast.walk(node):
+        if isinstance(n, ast.comprehension):
+            local |= {m.id for m in ast.walk(n.target) if isinstance(m, ast.Name)}
+    return {n.id for n in ast.walk(node) if isinstance(n, ast.Name) and isinstance(n.ctx, ctxt) and not (ctxt is ast.Store and n.id in local)}
+
+
+def interpolate_regions(fi, cut=("dim_interp_indices", "dim_interp_values")):
+    """Mechanical split of the real `Interpolation.interpolate` (re-done from the source on every run):
+
+      prelude  = the statements before the `for i in range(num_dim)` loop,
+      region A = the loop-body statements up to and including the last top-level definition of a CUT name from other names
+                 (the one-dimensional weights / node indices: floor, nonzero, data-dependent boundary loops -- outside the executor's reach),
+      region B = every loop-body statement after it (the combination across dimensions), executed in full.
+
+    Of prelude and A only the backward data slice that B (and the return expression) needs is executed; the CUT names are havocked at the cut.
+    Returns (loop node, prelude slice, A slice, B, return node, dropped line numbers)."""
+    import ast
+    body = fi.node.body
+    loops = [k for k, st in enumerate(body) if isinstance(st, ast.For)]
+    if len(loops) != 1:
+        return None
+    loop = body[loops[0]]
+    lb = loop.body
+    defs = [k for k, st in enumerate(lb) if isinstance(st, (ast.Assign, ast.AugAssign, ast.AnnAssign))
+            and (_names(st, ast.Store) & set(cut)) and not (_names(st, ast.Load) & set(cut))]
+    if not defs:
+        return None
+    k = max(defs)
+    A, B = lb[: k + 1], lb[k + 1:]
+    ret = [st for st in body[loops[0] + 1:] if isinstance(st, ast.Return)]
+    if len(ret) != 1 or not B:
+        return None
+    needed = set().union(*[_names(st, ast.Load) for st in B]) | _names(ret[0], ast.Load) | _names(loop.iter, ast.Load)
+    needed -= set(cut)
+    pre = body[: loops[0]]
+    keep = set()
+    changed = True
+    while changed:
+        changed = False
+        for st in pre + A:
+            if id(st) in keep:
+                continue
+            stores = _names(st, ast.Store)
+            is_assert = isinstance(st, ast.Assert) and _names(st, ast.Load) <= needed
+            if (stores & needed and not stores & set(cut)) or is_assert:
+                keep.add(id(st))
+                needed |= _names(st, ast.Load) - set(cut)
+                changed = True
+    dropped = [st.lineno for st in pre + A if id(st) not in keep]
+    return loop, [st for st in pre if id(st) in keep], [st for st in A if id(st) in keep], B, ret[0], dropped
+
+
+@case("C09", clause="interpolation_combination", name="interpolate_combination", expand=lambda ix: [(d,) for d in (1, 2, 3)],
+      replay=lambda *a: replay_interp_combination(*a), functions=[f"{IP}.interpolate"])
+def interpolate_combination(c, d):
+    """W[p, flat(k_0..k_{d-1})] = prod_i w_i[p, k_i] on a grid whose dimensions have *different* sizes g_0..g_{d-1} (symbolic): the part of the real
+    `interpolate` that combines the one-dimensional node indices I_i (n x C) and weights V_i (n x C) -- arbitrary symbolic tensors here, the
+    one-dimensional part is havocked -- must produce, in column col of row p,
+        index  sum_i I_i[p, digit_i(col)] * prod_{j>i} g_j      (the lexicographic position in the g_0 x ... x g_{d-1} grid, dimension 0 slowest:
+                                                                the ordering of the Kronecker-structured K_UU)
+        value  prod_i V_i[p, digit_i(col)]                      with digit_i(col) = (col div C^(d-1-i)) mod C,
+    and have shape n x C^d; every digit combination occurs exactly once (col <-> digits is the base-C expansion)."""
+    import ast
+    from engine.symexec import Env
+    it, ctx = c.it, c.ctx
+    fi = it.index.get_function(f"{IP}.interpolate")
+    reg = interpolate_regions(fi)
+    if reg is None:
+        from engine.symexec import Undecided
+        raise Undecided("interpolate: loop / cut statement not found (the function was restructured; the region contract needs re-anchoring)")
+    loop, pre, A, B, ret, dropped = reg
+    c.info["slice"] = {"executed_prelude_lines": [s.lineno for s in pre], "executed_region_A_lines": [s.lineno for s in A],
+                       "executed_region_B_lines": [s.lineno for s in B], "dropped_lines": dropped,
+                       "havocked_at_cut": ["dim_interp_indices", "dim_interp_values"]}
+    ctx.assumptions.add("Interpolation.interpolate is verified as a region contract: the one-dimensional part of the loop body (source lines "
+                        f"{min(dropped)}-{max(dropped)} except the executed slice lines {[s_.lineno for s_ in pre + A]}) is NOT executed; its results dim_interp_indices / "
+                        "dim_interp_values are havocked (arbitrary n x C tensors) at the cut, the range checks that raise are dropped (partial correctness), "
+                        "and the one-dimensional weights are covered by the _cubic_interpolation_kernel contract plus the bounded tier")
+    n = c.size("n")
+    g = [c.size(f"g{i}", minimum=4) for i in range(d)]
+    x_grid = VList([sym_tensor(f"grid{i}", [g[i].t]) for i in range(d)])
+    x_target = sym_tensor("x", [n.t, z3.IntVal(d)])
+    o = VObj(it.index.get_class(IP), label="Interpolation")
+    env = Env(module=fi.module, func=fi, defcls=fi.cls)
+    it.bind_args(ctx, fi, [o, x_grid, x_target], {}, env)
+    it.exec_block(ctx, pre, env)
+    Cn = env.lookup("num_coefficients")
+    C = Cn.concrete() if isinstance(Cn, VNum) else None
+    if C is None:
+        from engine.symexec import Undecided
+        raise Undecided("num_coefficients is not a concrete integer on this path")
+    I, V = [], []
+    items = it.iterate(ctx, it.eval(ctx, loop.iter, env))
+    c.prove("interp.one_iteration_per_grid_dimension", z3.BoolVal(len(items) == d))
+    for k, x in enumerate(items):
+        it.assign(ctx, loop.target, x, env)
+        it.exec_block(ctx, A, env)
+        I.append(sym_tensor(f"I{k}", [n.t, z3.IntVal(C)], "int"))
+        V.append(sym_tensor(f"V{k}", [n.t, z3.IntVal(C)]))
+        env.set("dim_interp_indices", I[-1])
+        env.set("dim_interp_values", V[-1])
+        it.exec_block(ctx, B, env)
+    res = it.eval(ctx, ret.value, env)
+    idx_t, val_t = res.items
+    for nm, t in (("indices", idx_t), ("values", val_t)):
+        sh = t.shape_tuple().items
+        c.prove(f"interp.{nm}.shape", z3.And(z3.BoolVal(len(sh) == 2), sh[0].t == n.t, sh[1].t == C ** d) if len(sh) == 2 else z3.BoolVal(False))
+    p = c.int("p")
+    c.assume(z3.And(p.t >= 0, p.t < n.t))
+    # the order of the C^d columns inside a row has no meaning (each column is an (index, value) pair): accept any significance order of the dimensions
+    # in the column number.  The order is read off the value tensor (V_i are distinct uninterpreted functions); default = dimension 0 most significant.
+    import itertools
+    place = list(range(d))
+    for cand in itertools.permutations(range(d)):
+        ok = True
+        for i in range(d):
+            col1 = C ** (d - 1 - cand[i])  # the column whose only non-zero digit is a 1 in dimension i
+            w = z3.RealVal(1)
+            for j in range(d):
+                w = w * V[j].at([p.t, z3.IntVal(1 if j == i else 0)])
+            if not ctx.entails(val_t.at([p.t, z3.IntVal(col1)]) == w):
+                ok = False
+                break
+        if ok:
+            place = list(cand)
+            break
+    c.info["column_digit_significance"] = place
+    for col in range(C ** d):
+        digits = [(col // C ** (d - 1 - place[i])) % C for i in range(d)]
+        want_i, want_v = z3.IntVal(0), z3.RealVal(1)
+        for i in range(d):
+            stride = z3.IntVal(1)
+            for j in range(i + 1, d):
+                stride = stride * g[j].t
+            want_i = want_i + I[i].at([p.t, z3.IntVal(digits[i])]) * stride
+            want_v = want_v * V[i].at([p.t, z3.IntVal(digits[i])])
+        tag = "".join(str(x) for x in digits)
+        c.prove(f"interp.index.lexicographic_position[{tag}]", idx_t.at([p.t, z3.IntVal(col)]) == want_i, sizes=[f"g{i}" for i in range(d)])
+        c.prove(f"interp.value.product_of_the_one_dimensional_weights[{tag}]", val_t.at([p.t, z3.IntVal(col)]) == want_v)
+
+
+def replay_interp_combination(model, params, clause, info):
+    """the verifier's grid sizes (shifted into 8..12, differences kept where possible) on the real `interpolate`: the dense interpolation matrix the
+    returned (index, value) pairs denote, against the Kronecker product of one-dimensional Keys weights computed independently of the code under test
+    (interior points only: no boundary handling involved).  Independent of the column order of the result."""
+    import torch
+    from gpytorch.utils.interpolation import Interpolation
+    d = int(params[0])
+    raw = []
+    for i in range(d):
+        try:
+            raw.append(int(str(model.get(f"g{i}"))))
+        except Exception:
+            raw.append(4 + 2 * i)
+    g = [min(max(v + 4, 8), 12) for v in raw]
+    if len(set(g)) == 1 and len(set(raw)) > 1:
+        g = [8 + i for i in range(d)]
+    torch.manual_seed(0)
+    n = 7
+    grids = [torch.linspace(0, 1, gi, dtype=torch.float64) for gi in g]
+    x = torch.rand(n, d, dtype=torch.float64) * 0.2 + 0.4
+    try:
+        idx, val = Interpolation().interpolate(grids, x)
+        total = 1
+        for gi in g:
+            total *= gi
+        W = torch.zeros(n, total, dtype=torch.float64)
+        W.scatter_add_(1, idx, val)
+    except Exception as e:  # the changed code raises (or returns indices outside the grid) on an input the property covers
+        return {"violates": True, "detail": f"grid sizes {g}: real interpolate fails on interior points: {type(e).__name__}: {str(e)[:200]}",
+                "entry": {"module": "contracts.C09_structured", "function": "replay_interp_combination", "args": [model, list(params), clause, info]}}
+
+    def keys(u):
+        u = u.abs()
+        return torch.where(u < 1, (1.5 * u - 2.5) * u * u + 1, torch.where(u < 2, ((-0.5 * u + 2.5) * u - 4) * u + 2, torch.zeros_like(u)))
+
+    want = torch.ones(n, 1, dtype=torch.float64)
+    for i in range(d):
+        wi = keys((x[:, i:i + 1] - grids[i].unsqueeze(0)) * (g[i] - 1))  # n x g_i
+        want = (want.unsqueeze(-1) * wi.unsqueeze(-2)).reshape(n, -1)   # dimension 0 slowest: the Kronecker order of the grid
+    err = (W - want).abs().max().item()
+    bad = err > 1e-9
+    return {"violates": bool(bad), "detail": f"grid sizes {g}: dense interpolation matrix of the real interpolate vs Kronecker product of 1-d Keys weights: max abs diff {err:.3g}",
+            "entry": {"module": "contracts.C09_structured", "function": "replay_interp_combination", "args": [model, list(params), clause, info]}}
